@@ -86,6 +86,16 @@ static Reg r_fwd("mgrs_fwd", [](const Args& a) {
   current_op() = "mgrs_fwd " + a[0] + " " + a[1] + " " + a[2] + " " + a[3] + " " + a[4] + " " + (ek.empty() ? hx(lat) : std::string("E"));
   std::string s = "~untouched~";
   std::string e = guarded([&] { MGRS::Forward(zone, northp, x, y, prec, s); });
+  // MGRS.hpp: UTM northings may be continued across the equator; the same point labelled with the other hemisphere
+  // (northing shifted by the false northing 10^7 m, the addition the implementation itself performs) converts identically
+  if (zone >= 1 && zone <= 60 && std::isfinite(x) && std::isfinite(y) && ((northp && y < 0) || (!northp && y > 1e7))) {   // a southern y of exactly 10^7 m keeps its label (documented: on the equator retain S)
+    double y2 = northp ? y + 1e7 : y - 1e7;
+    if (northp ? (y2 < 1e7) : (y2 >= 0)) {
+      std::string s2 = "~untouched~"; std::string e2 = guarded([&] { MGRS::Forward(zone, !northp, x, y2, prec, s2); });
+      if (e.empty() != e2.empty() || (e.empty() && s != s2))
+        bad("equivalent-labelling", std::string("MGRS::Forward with hemisphere label ") + (northp ? "N" : "S") + " gives " + (e.empty() ? s : "an exception") + " but the same point labelled " + (northp ? "S" : "N") + " gives " + (e2.empty() ? s2 : "an exception"));
+    }
+  }
   if (!e.empty()) { emit(e); if (e != "!E") bad("foreign-exception", e); if (s != "~untouched~") bad("output-modified-on-throw", "MGRS::Forward"); 
     // no exception for coordinates strictly inside the documented ranges
     if (zone >= 1 && zone <= 60 && prec >= -1 && prec <= 11 && x > 1e5 && x < 9e5 && y > (northp ? 0 : 1e6 + 1) && y < (northp ? 95e5 : 1e7 - 1)) {
